@@ -1,7 +1,7 @@
 """Property registry: which arms decide which property, tiers, and evidence metadata."""
 from types import SimpleNamespace as NS
 
-from .checks import c19a, c15, c16, c05s, c05h, c03, c13s, c13g, c04
+from .checks import c19a, c15, c16, c05s, c05h, c03, c13s, c13g, c04, c20
 from .refmodel import bitset as _bitset
 
 REAL_COMMON = ['all of elementpath (imported from /repo working tree)', 'CPython re/decimal/json/expat',
@@ -142,4 +142,22 @@ register(
     EXPECTED_PROBES=[],
     ASSUMPTIONS=['operator tables transcribed from the W3C EBNF (XPath 1.0, 2.0, 3.0, 3.1); the arrow operator and '
                  'lookup are covered by the cross-seed and round-trip clauses only'],
+)
+
+register(
+    ID='C20', LEVEL='exploration',
+    ARMS=[(c20, 1.0)],
+    TIERS={'quick': {'runs': 600, 'wall_cap': 100, 'minimise_budget': 30},
+           'thorough': {'runs': 12000, 'wall_cap': 800, 'minimise_budget': 90}},
+    RULE='each run = one generated XSD schema (1-8 element declarations over built-in simple types, list, union, '
+         'restriction, simple-content extension with typed attribute), a second schema for the same vocabulary, one '
+         'instance valid against both (re-validated by xmlschema) and a seeded history (2-20 operations) that evaluates '
+         'data()/instance-of/arithmetic/structural-path expressions on 1-3 reused trees (ElementTree, lxml, prebuilt node '
+         'trees) with proxy A, proxy B or no schema, through select() or a schema-bound Selector; non-trivial = at least '
+         '2 evaluations; distinct = distinct (tree form, schema, expression kind) sequence',
+    REAL=REAL_COMMON, STUB=['none needed: the simulated dimension is the attach/detach/swap history on reused trees'],
+    EXPECTED_PROBES=[],
+    ASSUMPTIONS=['typed values are compared with xmlschema\'s decode() of the same lexical form, for types with an '
+                 'unambiguous Python mapping', 'schemas with attribute value constraints (defaults) are not generated: '
+                 'the engine adds attribute nodes for them, which is a data-model question no schedule can settle'],
 )
